@@ -22,7 +22,8 @@ MIN_NONTRIVIAL = {"quick": 200, "thorough": 2000}
 REQUIRED_PROBES = ["merge_breakpoints", "merger_iter"]
 REQUIRED_FEATURES = ["merge:single-pass", "merge:two-pass", "chunks:empty", "chunks:repeat-pixel", "mergebuf:1",
                      "ensure_sorted", "mode:square", "mode:symm", "maxmerge:below-chunk-count:2-3-chunks",
-                     "epoch:empty-row-with-tiny-buffer", "chunks:all-empty"]
+                     "epoch:empty-row-with-tiny-buffer", "chunks:all-empty", "counts:float-fractional",
+                     "chunks:repeat-pixel-within-chunk(dupcheck=False)"]
 
 
 def plan(tier, seed):
@@ -60,6 +61,7 @@ def one_multiset(ctx, shard, k, rng):
     bins = gen.bt_frame(bt)
     symm = bool(rng.random() < 0.6)
     two_cols = bool(rng.random() < 0.4)
+    float_counts = bool(rng.random() < 0.35)       # dtypes={"count": float}: fractional parts must survive every pass
     special = (shard["sub"] * 100 + k) % 9
     pat = gen.PATTERNS[int(rng.integers(len(gen.PATTERNS)))]
     if special == 0:
@@ -75,6 +77,8 @@ def one_multiset(ctx, shard, k, rng):
         parts = int(rng.integers(1, 4))
         v = base[key]
         vals = [v] + [int(rng.integers(1, 9)) for _ in range(parts - 1)]
+        if float_counts:
+            vals = [x + float(int(rng.integers(1, 8))) / 8.0 for x in vals]
         for p_, val in enumerate(vals):
             sc = float(int(rng.integers(-40, 40))) / 8.0
             records.append((key, val, sc, p_))
@@ -115,6 +119,16 @@ def one_multiset(ctx, shard, k, rng):
         order = r2.permutation(len(chunks))
         chunks = [chunks[i] for i in order]
         ensure_sorted = bool(r2.random() < 0.3)
+        # dupcheck=False: a chunk may list a pixel more than once (records are combined all the same)
+        dup_in_chunk = bool(r2.random() < 0.25)
+        if dup_in_chunk:
+            cap = n * (n + 1) // 2 if symm else n * n        # a chunk cannot hold more rows than the matrix has cells
+            for ch in chunks:
+                for rec in list(ch)[: int(r2.integers(0, 3))]:
+                    half = rec[1] / 2 if float_counts else rec[1] // 2
+                    if half and len(ch) < cap:
+                        ch.append([rec[0], half, 0.0])
+                        rec[1] -= half
         mergebuf = int([1, 2, max(rowlen - 1, 1), rowlen, max(len(total), 1), 10**7][int(r2.integers(6))])
         nck = len(chunks)
         mm_choices = [1, 2, 3, max(nck - 1, 1), nck, 200]
@@ -125,7 +139,8 @@ def one_multiset(ctx, shard, k, rng):
         for ch in chunks:
             rows = [(kk[0], kk[1], v, sc) for kk, v, sc in ch]
             df = pd.DataFrame(rows, columns=["bin1_id", "bin2_id", "count", "score"]).astype(
-                {"bin1_id": np.int64, "bin2_id": np.int64, "count": np.int64, "score": np.float64})
+                {"bin1_id": np.int64, "bin2_id": np.int64, "count": np.float64 if float_counts else np.int64,
+                 "score": np.float64})
             if ensure_sorted:
                 df = df.iloc[r2.permutation(len(df))].reset_index(drop=True)
             else:
@@ -134,7 +149,8 @@ def one_multiset(ctx, shard, k, rng):
                 df = df.drop(columns=["score"])
             frames.append(df)
         desc = {"bt": bt, "symm": symm, "chunks": [f.values.tolist() for f in frames][:14], "mergebuf": mergebuf,
-                "max_merge": max_merge, "ensure_sorted": ensure_sorted, "two_cols": two_cols}
+                "max_merge": max_merge, "ensure_sorted": ensure_sorted, "two_cols": two_cols,
+                "float_counts": float_counts, "dup_in_chunk": dup_in_chunk}
         d = ctx.newdir()
         out = os.path.join(d, "out.cool")
         with ctx.case(cid, desc, exc_key=exc_key(frames, max_merge, mergebuf, total)) as c:
@@ -156,6 +172,12 @@ def one_multiset(ctx, shard, k, rng):
                 c.feature("epoch:empty-row-with-tiny-buffer")
             kw = dict(ordered=False, symmetric_upper=symm, mergebuf=mergebuf, max_merge=max_merge,
                       ensure_sorted=ensure_sorted, columns=["count", "score"] if two_cols else None)
+            if float_counts:
+                kw["dtypes"] = {"count": np.float64}
+                c.feature("counts:float-fractional")
+            if dup_in_chunk:
+                kw["dupcheck"] = False
+                c.feature("chunks:repeat-pixel-within-chunk(dupcheck=False)")
             if not symm:
                 kw["triucheck"] = False
             _AUDIT["paths"].clear()
